@@ -124,7 +124,7 @@ func fpRequest(doc *ast.Document, opName string) (req jmap, ok bool) {
 			if d.TypeCondition != nil && d.TypeCondition.Name != nil {
 				tc = d.TypeCondition.Name.Value
 			}
-			frags = append(frags, jmap{"name": hx_(d.Name.Value), "tc": hx_(tc), "sel": fpSels(d.SelectionSet, &count)})
+			frags = append(frags, jmap{"name": hx_(d.Name.Value), "tc": hx_(tc), "dirs": fpDirs(d.Directives), "sel": fpSels(d.SelectionSet, &count)})
 		}
 	}
 	if op == nil {
